@@ -242,9 +242,9 @@ def run(cx):
         sim = (3, 2, 4, "full", True)
     else:
         graph_cfgs = [("mainpairs", (2, 1, 0, "full", False)), ("mainpairs_mod", (2, 1, 1, "small", False)),
-                      ("deep", (1, 2, 3, "small", False)), ("four", (1, 1, 2, "small", True)),
+                      ("deep", (1, 2, 3, "small", False)), ("four", (1, 1, 3, "small", True)),
                       ("maintriples", (3, 1, 0, "small", False))]
-        maxseg, encs = 4, ["plain", "hexdots", "unidots", "octall"]
+        maxseg, encs = 4, ["plain", "hexdots", "hexall", "unidots", "octall", "bigdots"]
         nsim, nrand = 2500, 30000
         sim = (4, 3, 6, "full", True)
 
@@ -404,9 +404,17 @@ def run(cx):
             cx.notes.append("known finding %s: witness no longer fails" % f["id"])
 
     # ---- evidence
-    for c in st["tolerated"][:3]:
-        cx.notes.append("tolerated: %r (%s) was accepted although the design rejects it; it stayed under the root" % (
-            text_of(c), c["sp"]))
+    tol_kinds = {}
+    for c in st["tolerated"]:
+        tol_kinds.setdefault((c["sp"], text_of(c)), 0)
+        tol_kinds[(c["sp"], text_of(c))] += 1
+    if tol_kinds:
+        by_sp = {}
+        for (sp, t), n in tol_kinds.items():
+            by_sp.setdefault(sp, []).append(t)
+        for sp, ts in sorted(by_sp.items()):
+            cx.notes.append("tolerated (%s): %d texts the design rejects were accepted, stayed under the root and did not split "
+                            "module state, e.g. %s" % (sp, len(ts), ", ".join(repr(t) for t in sorted(ts, key=len)[:6])))
     samples = st["samples_g"] + st["samples_p"]
     if samples:
         so = drive(cx, drv, samples, "samples", src=True)
